@@ -3,6 +3,8 @@ import datetime
 import logging
 import numbers
 
+import pydantic
+
 from mopidy.internal import log
 from mopidy.internal.gi import GLib, Gst
 from mopidy.models import Album, Artist, Track
@@ -125,6 +127,16 @@ def _extract_buffer_data(buf):
     return data
 
 
+def _build(model, kwargs):
+    """Build a model, leaving out the values it cannot represent."""
+    try:
+        return model(**kwargs)
+    except pydantic.ValidationError as exc:
+        invalid = {error["loc"][0] for error in exc.errors()}
+        logger.debug("Ignoring invalid %s values: %s", model.__name__, invalid)
+        return model(**{k: v for k, v in kwargs.items() if k not in invalid})
+
+
 # TODO: split based on "stream" and "track" based conversion? i.e. handle data
 # from radios in it's own helper instead?
 def convert_tags_to_track(tags):
@@ -185,9 +197,9 @@ def convert_tags_to_track(tags):
 
     # Only bother with album if we have a name to show.
     if album_kwargs.get("name"):
-        track_kwargs["album"] = Album(**album_kwargs)
+        track_kwargs["album"] = _build(Album, album_kwargs)
 
-    return Track(**track_kwargs)
+    return _build(Track, track_kwargs)
 
 
 def _artists(tags, artist_name, artist_id=None, artist_sortname=None):
@@ -202,7 +214,7 @@ def _artists(tags, artist_name, artist_id=None, artist_sortname=None):
             attrs["musicbrainz_id"] = tags[artist_id][0]
         if artist_sortname in tags:
             attrs["sortname"] = tags[artist_sortname][0]
-        return [Artist(**attrs)]
+        return [_build(Artist, attrs)]
 
     # Multiple artist, provide artists with name only to avoid ambiguity.
-    return [Artist(name=name) for name in tags[artist_name]]
+    return [_build(Artist, {"name": name}) for name in tags[artist_name]]
